@@ -18,7 +18,7 @@ from fsic.core import BaseLinker, VectorContainer
 
 from ..core import runner
 from ..core.observe import observe, diff_obs
-from ..core.runner import Acc, guard, CaseTimeout
+from ..core.runner import Acc, guard, CaseTimeout, robust
 
 ID = 'C09'
 LEVEL = 'model_checking'
@@ -43,6 +43,7 @@ OPERANDS = {
     'i0': lambda: 0, 'bF': lambda: False, 'list_zeros': lambda: [0, 0, 0],
     'list_n': lambda: [1, 2, 3], 'tuple_n': lambda: (1.5, 2.5, 3.5), 'range_n': lambda: range(N),
     'liststr': lambda: ['a', 'b', 'c'], 'listbool': lambda: [True, False, True],
+    'range_1': lambda: range(7, 8), 'range_n+1': lambda: range(N + 1), 'tuple_1': lambda: (7,),
     'list_n+1': lambda: [1, 2, 3, 4], 'list_n-1': lambda: [1, 2], 'list_1': lambda: [7], 'list_0': lambda: [],
     'nest_nx2': lambda: [[1, 2], [3, 4], [5, 6]], 'nest_nx1': lambda: [[1], [2], [3]], 'nest_1xn': lambda: [[1, 2, 3]],
     'np_n': lambda: np.array([1., 2., 3.]), 'np_1': lambda: np.array([9.]), 'np_n+1': lambda: np.arange(4.),
@@ -59,6 +60,8 @@ def fit_class(on):
     a = np.array(v) if not isinstance(v, np.ndarray) else v
     if a.ndim == 1 and a.shape[0] == N:
         return 'clear-fit'
+    if isinstance(v, (list, tuple, range)) and a.ndim == 1:
+        return 'must-raise'  # a Python sequence is one value per period: any other length is the wrong length (one element included)
     if a.size not in (1, N):
         return 'must-raise'
     return 'lenient'
@@ -451,6 +454,91 @@ def run_transition(kind, hist, i):
     return v, key_of(after), after != before_obs, type(exc).__name__ if exc else None
 
 
+# --------------------------------------------------------------------------- strict=True: every name that is not a variable or an existing attribute
+
+EXTRA_VARS = ['YD', 'Gov', 'Income_total']
+EDIT_ALPHABET = 'aYdgx_1'
+
+
+def edits1(word):
+    out = set()
+    for i in range(len(word) + 1):
+        for ch in EDIT_ALPHABET:
+            out.add(word[:i] + ch + word[i:])
+    for i in range(len(word)):
+        out.add(word[:i] + word[i + 1:])
+        for ch in EDIT_ALPHABET:
+            out.add(word[:i] + ch + word[i + 1:])
+        if i + 1 < len(word):
+            out.add(word[:i] + word[i + 1] + word[i] + word[i + 2:])
+    out |= {word.lower(), word.upper(), word.swapcase(), word * 2, word[::-1]}
+    return {w for w in out if re.fullmatch(r'[A-Za-z_][A-Za-z0-9_]*', w)}
+
+
+def reference_hint(name, index):
+    """The closest variable, from the documentation of get_closest_match: case-insensitive difflib ratio, cutoff 0.1.
+    Returns (hint or None, decided): undecided when the best score is tied or sits on the cutoff."""
+    import difflib
+    lowered = {}
+    for x in index:
+        lowered.setdefault(x.lower(), []).append(x)
+    scored = sorted(((difflib.SequenceMatcher(None, x, name.lower()).ratio(), x) for x in lowered), reverse=True)
+    if not scored or scored[0][0] < 0.1 - 1e-9:
+        return None, True
+    if abs(scored[0][0] - 0.1) < 1e-9 or (len(scored) > 1 and abs(scored[0][0] - scored[1][0]) < 1e-9) or len(lowered[scored[0][1]]) != 1:
+        return None, False
+    return lowered[scored[0][1]][0], True
+
+
+def strict_names(kind):
+    obj = build(kind)
+    names = set()
+    for v in list(obj.index) + EXTRA_VARS:
+        names |= edits1(v)
+        for w in list(edits1(v))[:0]:
+            names |= edits1(w)
+        names.add('_' + v)          # the private slot a variable is stored in
+        names.add('__' + v)
+    names |= {n for n in dir(type(obj)) if not n.startswith('__')}  # methods, properties and class-level settings
+    names |= {'qq', 'zzzzzzzz', 'w', 'Total', 'income', 'GOV_', 'yd2', 'dy', 'consumption', '_', '__dict__x'}
+    return sorted(names)
+
+
+@robust()
+def run_strict_name(case):
+    kind, name = case['kind'], case['name']
+    obj = build(kind)
+    for v in EXTRA_VARS:
+        obj.add_variable(v, 0.0)
+    if case.get('late_strict'):
+        obj.add_attribute('note', 'x')
+    obj.strict = True
+    index = list(obj.index)
+    attrs = list(obj.__dict__['_attributes'])
+    if name in index or name in attrs:
+        return []
+    before = observe(obj)
+    keys = sorted(obj.__dict__)
+    exc = None
+    try:
+        setattr(obj, name, 1)
+    except Exception as e:
+        exc = e
+    out = []
+    if sorted(obj.__dict__) != keys or observe(obj) != before:
+        out.append(('strict:attribute-created', 'unchanged', [sorted(set(obj.__dict__) ^ set(keys)), diff_obs(before, observe(obj))[:2]],
+                    'an assignment under strict=True created an attribute or changed the object'))
+    elif not isinstance(exc, AttributeError):
+        out.append(('strict:not-blocked', 'AttributeError', type(exc).__name__ if exc else 'accepted', 'an assignment to a name that is neither a variable nor an existing attribute must be blocked'))
+    else:
+        hint, decided = reference_hint(name, list(obj.names) if kind != 'container' else index)  # models and linkers suggest among `names` (documented default)
+        m = re.search(r"Did you mean: '([^']*)'", str(exc))
+        got = m.group(1) if m else None
+        if decided and got != hint:
+            out.append(('strict:near-miss-hint', hint, got, 'the closest variable is not the one reported for %r' % name))
+    return out
+
+
 def blocks(tier, seed):
     """Level-synchronous BFS: earlier levels are completed here (in parallel), the last level is returned as blocks."""
     global _PRIOR, _FRONT
@@ -476,11 +564,23 @@ def blocks(tier, seed):
     _PRIOR.frontier = {}
     _PRIOR.states = len(seen)
     step = max(1, len(frontier) // 64)
-    return [{'kind': 'expand', 'lo': j, 'hi': min(j + step, len(frontier))} for j in range(0, len(frontier), step)]
+    return [{'kind': 'expand', 'lo': j, 'hi': min(j + step, len(frontier))} for j in range(0, len(frontier), step)] + [{'kind': 'strict-names', 'object': k, 'part': p, 'parts': 4} for k in _KINDS for p in range(4)]
 
 
 def run_block(block, tier, seed):
     acc = Acc()
+    if block['kind'] == 'strict-names':
+        for i, name in enumerate(strict_names(block['object'])):
+            if i % block['parts'] != block['part']:
+                continue
+            for late in (False, True):
+                case = {'kind': block['object'], 'name': name, 'late_strict': late, 'family': 'strict-names'}
+                acc.evaluations += 1
+                acc.nontrivial += 1
+                for key, exp, obs, what in run_strict_name(case):
+                    acc.violation(key, case, exp, obs, what)
+        acc.sample({'family': 'strict-names', 'kind': block['object'], 'name': 'YX'}, limit=1)
+        return acc
     for kind, hist in _FRONT[block['lo']:block['hi']]:
         expand(kind, hist, acc)
     if _FRONT[block['lo']:block['hi']]:
@@ -490,6 +590,8 @@ def run_block(block, tier, seed):
 
 
 def run_one(case):
+    if case.get('family') == 'strict-names':
+        return run_strict_name(case)
     return run_transition(case['kind'], tuple(case['hist_idx'][:-1]), case['hist_idx'][-1])[0]
 
 
